@@ -365,6 +365,8 @@ const (
 	stTLSPending
 	stPipelining
 	stNotReading
+	stMidStreamNotReading
+	stSlowHandlerWindowFull
 	stKinds
 )
 
@@ -377,12 +379,26 @@ func H_C11_stop() {
 		opts = append(opts, WithReadTimeout(time.Second))
 	}
 	v := vNewSrv(opts...)
+	hgate := vGate("slow handler")
 	vAssume(v.mux.Delete(func(w *ResponseWriter, r *Request) {
+		if state == stSlowHandlerWindowFull {
+			vGateWait(hgate)
+		}
 		_ = w.Write(r.NewResponse(WithResponseCode(ResultSuccess)))
 	}) == nil)
 	var runOpts []Option
 	nc := vNetConn("c1")
 	switch state {
+	case stSlowHandlerWindowFull:
+		// a slow handler is still running when Stop arrives between two requests; the
+		// client does not read and its window has room for one more frame only (the
+		// notice of disconnection or the handler's response, whichever is written first)
+		vConnSet(nc, "writeBlockAfter1", true)
+		vConnFeed(nc, vWire(refEnvelope(1, refDeleteOp(), nil)))
+		vConnFeedCall(nc, func() { v.goStop() })
+		vConnFeed(nc, vWire(refEnvelope(2, refDeleteOp(), nil)))
+		vConnFeedBlock(nc)
+		vEnvAccept(nc)
 	case stIdle:
 		vConnFeedBlock(nc)
 		vEnvAccept(nc)
@@ -401,10 +417,22 @@ func H_C11_stop() {
 		vConnFeed(nc, vWire(refEnvelope(1, refDeleteOp(), nil)))
 		vConnFeedBlock(nc)
 		vEnvAccept(nc)
+	case stMidStreamNotReading:
+		// a pipelining client that never reads its responses; Stop arrives between two
+		// of its requests (the read loop takes its shutdown branch), handlers still
+		// have responses to write afterwards
+		vConnSet(nc, "writeBlock", true)
+		vConnFeed(nc, vWire(refEnvelope(1, refDeleteOp(), nil)))
+		vConnFeedCall(nc, func() { v.goStop() })
+		vConnFeed(nc, vWire(refEnvelope(2, refDeleteOp(), nil)))
+		vConnFeedBlock(nc)
+		vEnvAccept(nc)
 	}
 	v.goRun(runOpts...)
 	vQuiesce()
-	v.goStop()
+	if state != stMidStreamNotReading && state != stSlowHandlerWindowFull {
+		v.goStop()
+	}
 	second := vBool("secondStop")
 	if second {
 		go func() {
@@ -412,6 +440,8 @@ func H_C11_stop() {
 			vEvent("Stop2.return")
 		}()
 	}
+	vQuiesce()
+	vGateOpen(hgate) // the slow handlers carry on (no client action)
 	vQuiesce()
 	vAssertE(v.ranStop, "Stop returns without any client action")
 	vAssertE(v.ranRun && v.runErr == nil, "Run returns nil after Stop")
@@ -573,13 +603,28 @@ const (
 // satisfying it reach a handler (gldap-owned obligations O1-O3).
 func H_C18_tls() {
 	vSchedFork(1)
-	mtls := vBool("requireClientCert")
+	withTLS := vBool("withTLSConfig")
+	mtls := withTLS && vBool("requireClientCert")
 	cfg := vTLSConfig()
+	src := 0
+	if withTLS {
+		src = vLen("certSource", 2)
+	}
+	// where the server certificate comes from: a static list, a per-handshake
+	// callback, or a per-client configuration callback
+	switch src {
+	case 0:
+		cfg.Certificates = []tls.Certificate{{}}
+	case 1:
+		cfg.GetCertificate = func(*tls.ClientHelloInfo) (*tls.Certificate, error) { return &tls.Certificate{}, nil }
+	default:
+		inner := &tls.Config{MinVersion: tls.VersionTLS12, Certificates: []tls.Certificate{{}}}
+		cfg.GetConfigForClient = func(*tls.ClientHelloInfo) (*tls.Config, error) { return inner, nil }
+	}
 	if mtls {
 		cfg.ClientAuth = tls.RequireAndVerifyClientCert
 		cfg.ClientCAs = x509.NewCertPool()
 	}
-	withTLS := vBool("withTLSConfig")
 	v := vNewSrv(WithReadTimeout(time.Second))
 	var mu sync.Mutex
 	handled := map[string]int{}
@@ -592,7 +637,8 @@ func H_C18_tls() {
 			vAssertE(got != nil, "a handler runs only on a TLS connection when a TLS configuration is given")
 			if got != nil {
 				vAssertE(got == cfg || (got.ClientAuth == cfg.ClientAuth && got.ClientCAs == cfg.ClientCAs && got.MinVersion == cfg.MinVersion &&
-					got.InsecureSkipVerify == cfg.InsecureSkipVerify && len(got.Certificates) == len(cfg.Certificates) && got.GetConfigForClient == nil && got.VerifyPeerCertificate == nil),
+					got.InsecureSkipVerify == cfg.InsecureSkipVerify && len(got.Certificates) == len(cfg.Certificates) && (got.GetConfigForClient == nil) == (cfg.GetConfigForClient == nil) &&
+					(got.GetCertificate == nil) == (cfg.GetCertificate == nil) && got.VerifyPeerCertificate == nil),
 					"the connection's TLS configuration is the one given to Run (or a copy with the same security-relevant fields)")
 			}
 			vAssertE(vConnLayer(r.conn.reader) == "reader(tls(raw("+vConnName(r)+")))", "requests are read through the TLS connection over the accepted socket")
